@@ -2,6 +2,7 @@ SPECIFICATION MSpec
 CONSTANTS Names = {"x", "y"}
           LeafIds = {1, 2}
           DirIds = {0}
+          Builders = {0}
           MaxDepth = 2
           NShards = 1
           Shard = 0
